@@ -50,3 +50,29 @@ Proof.
   assert (Hp : Ok p = patch (k_src w_escape) (k_tree w_escape)) by (symmetry; exact E).
   vm_compute in Hp. injection Hp as ->. vm_compute. repeat split.
 Qed.
+
+(* ------------------------------------------------------------------ a witness for the exact-region theorem *)
+From RopeVerif.C08 Require Import Fragment FragmentProofs.
+
+Definition sp : trivium := TBlank 32.
+Definition nl : trivium := TBlank 10.
+(*   # top (
+     f ( a . b # c )
+       , x ) + y  # end          *)
+Definition frag_t0 : trivia := [TComment (T " top (")].
+Definition frag_c : cexpr :=
+  CBin
+    (CCall (CName (T "f")) [sp]
+       (AOne [sp] (CAttr (CName (T "a")) [sp] [sp] (T "b"))
+          (MCons [sp; TComment (T " c )"); sp; sp] [sp] (CName (T "x")) MNil))
+       [sp])
+    [sp] (T "+") [sp] (CName (T "y")).
+Definition frag_t1 : trivia := [sp; sp; TComment (T " end")].
+
+Lemma frag_is_ropes_run :
+  trivia_ok frag_t0 = true /\ cexpr_ok frag_c = true /\ trivia_ok frag_t1 = true /\
+  render_module frag_t0 frag_c frag_t1 = k_src w_frag /\
+  k_ast w_frag = Some (ast_module frag_c) /\
+  k_rope w_frag = Ok (annot_module frag_t0 frag_c frag_t1) /\
+  run_case w_frag = 0.
+Proof. vm_compute. repeat split. Qed.
